@@ -105,8 +105,7 @@ def check_gated_inventory(ck, view, flag, tag=""):
         if G != flag and G != role:
             continue
         gated_sites.add(g["e"].site)
-        a, ia = leaf.split_indexed(g["A"])
-        b, ib = leaf.split_indexed(g["B"])
+        a, ia, b, ib, nest = leaf.split_pair(g["e"], g["A"], g["B"])
         cls = [k for k, f in expected.items() if f(a, b)]
         if len(cls) != 1:
             ck.fail("INV", tag + "gated/unexpected@" + g["e"].frame.body.name, "a constraint gated by the dummy flag is not one of the four binding groups", g["e"].loc,
@@ -114,8 +113,7 @@ def check_gated_inventory(ck, view, flag, tag=""):
             continue
         seen.setdefault(cls[0], []).append(g)
         e = g["e"]
-        from .C02 import _range04
-        ck.require(ia == ib and _range04(ia), "TERM", tag + "gated/%s/all-limbs" % cls[0], "all four limbs are bound (same index i in 0..4 on both sides)", e.loc)
+        ck.require(leaf.all_limbs(nest, ia, ib), "TERM", tag + "gated/%s/all-limbs" % cls[0], "all four limbs are bound (same index i in 0..4 on both sides)", e.loc)
         circ.require_uncond(ck, e, "UNCOND", tag + "gated/%s/uncond" % cls[0], "the %s binding" % cls[0])
     for k in expected:
         ck.require(len(seen.get(k, [])) == 1, "INV", tag + "gated/%s/present" % k, "exactly one gated binding group `%s` (found %d)" % (k, len(seen.get(k, []))),
